@@ -59,9 +59,15 @@ def run_noloss(case):
                         "C10.delivered_once/" + ("fewer" if len(outs) < len(ins) else "more"))
     prev = None
     clamp = free = 0
+    classes_neg = []
     for k, (ri, ro) in enumerate(zip(ins, outs)):
         check_same(ri, ro)
         d = calls[k][1]
+        if d < 0:
+            # a jittered distribution may draw below zero: a + d lies before the packet's own entry, so it is due at once -
+            # it cannot leave before it entered, and it must not be held for |d| either
+            classes_neg.append(d)
+            d = 0
         own = F(ri.now) + F(d) if exact else ri.now + d
         want = own if prev is None else max(own, prev)
         if prev is not None and own < prev:
@@ -80,6 +86,8 @@ def run_noloss(case):
         classes.add("own delay decides")
     if any(d == 0 for _, d in calls):
         classes.add("zero delay")
+    if classes_neg:
+        classes.add("negative draw (due at once)")
     if any(0 < (d % (2 ** -20)) for _, d in calls):
         classes.add("sub-nanosecond delay component")
     if any(a for a in case.get("ages", [])[:len(ins)]):
@@ -470,7 +478,8 @@ def noloss_strategy(tier):
             # incl. delays and delay differences far below a nanosecond (still exact in binary floating point)
             dl = st.lists(kgen.weighted([(st.sampled_from([0, 1 / 1024, 1 / 8, 0.5, 1, 2, 4]), 3),
                                          (st.integers(0, 4096).map(lambda k: k / 1024), 1),
-                                         (st.sampled_from([2 ** -32, 3 * 2 ** -33, 0.5 + 2 ** -32, 1 + 2 ** -31, 2 ** -40]), 1)]),
+                                         (st.sampled_from([2 ** -32, 3 * 2 ** -33, 0.5 + 2 ** -32, 1 + 2 ** -31, 2 ** -40]), 1),
+                                         (st.sampled_from([-0.5, -1 / 8, -2, -2 ** -32]), 1)]),
                           min_size=1, max_size=8)
         else:
             dl = st.lists(st.sampled_from([0.0, 0.001, 0.01, 0.1, 0.3, 0.7, 1.1, 2.5]), min_size=1, max_size=8)
@@ -516,7 +525,8 @@ PROP = Property(
     facets=[
         Facet("noloss", noloss_strategy, run_noloss, quick=1200, thorough=8000,
               essential=["held back by predecessor (clamp)", "own delay decides", "zero delay",
-                         "packet older than its entry into the wire", "sub-nanosecond delay component"]),
+                         "packet older than its entry into the wire", "sub-nanosecond delay component",
+                         "negative draw (due at once)"]),
         Facet("loss", loss_strategy, run_loss, quick=600, thorough=4000,
               essential=["constant draw below p", "constant draw above p", "seeded draws", "loss rate 1", "some lost, some delivered"]),
         Facet("loss_varying", loss_varying_strategy, run_loss_varying, quick=600, thorough=4000,
@@ -531,5 +541,7 @@ PROP = Property(
     assumptions=["frequency clause is statistical (binomial band at 1e-9); independence of draws is not testable beyond that",
                  "a Wire's loss_rate and delay_dist are public attributes; reassigning them while the wire is empty takes effect for "
                  "the packets that enter afterwards (the statement speaks of the wire's loss rate, not of its constructor argument)",
+                 "a negative delay draw (jittered distributions) means 'due already': the packet leaves at max(its entry, previous "
+                 "delivery) - it can neither leave before it entered nor be held for |d|",
                  "onl.netdev.wire.random is replaced harness-side by a scripted/seeded generator"],
 )
